@@ -252,6 +252,50 @@ def ignore_exc_probe(cs_, spec):
     return found, n
 
 
+def history_probe():
+    """The rule is applied afresh on every call: the same word used as a `stats` argument (checked like a key, never prefixed) and as
+    a key (prefixed), in either order, on one client - and the same key under two clients with different prefixes sharing nothing."""
+    from pymemcache.client.base import Client, PooledClient
+    from pymemcache.client.hash import HashClient
+    found, n = [], 0
+    first = lambda log: b"".join(log).split(b"\r\n")[0]
+    for pfx in (b"app:", "s:", b"y" * 246):
+        pb = pfx.encode() if isinstance(pfx, str) else pfx
+        for word in ("items", b"slabs", "k" * 5):
+            wb = word.encode() if isinstance(word, str) else word
+            for order in ("stats-first", "key-first"):
+                for cname, build in (("Client", lambda m: Client(("h", 1), key_prefix=pfx, socket_module=m)),
+                                     ("PooledClient", lambda m: PooledClient(("h", 1), key_prefix=pfx, socket_module=m, max_pool_size=1)),
+                                     ("HashClient", lambda m: HashClient([("h", 1)], key_prefix=pfx, socket_module=m))):
+                    n += 1
+                    mod = _RecMod()
+                    cl = build(mod)
+                    seen = {}
+                    steps = [("stats", lambda: cl.stats(word)), ("get", lambda: cl.get(word)), ("delete", lambda: cl.delete(word, noreply=True))]
+                    if order == "key-first":
+                        steps = [steps[1], steps[0], steps[2]]
+                    for name, call in steps:
+                        del mod.log[:]
+                        try:
+                            call()
+                            seen[name] = first(mod.log)
+                        except Exception as e:  # noqa
+                            seen[name] = "%s: %s" % (type(e).__name__, str(e)[:40])
+                    too_long = len(pb + wb) > 250
+                    want = {"stats": b"stats " + wb, "get": "MemcacheIllegalInputError" if too_long else b"get " + pb + wb,
+                            "delete": "MemcacheIllegalInputError" if too_long else b"delete " + pb + wb + b" noreply"}
+                    for name in ("stats", "get", "delete"):
+                        got, exp = seen[name], want[name]
+                        ok = got.startswith(exp) if isinstance(exp, str) and isinstance(got, str) else got == exp
+                        if not ok:
+                            found.append({"input": {"key": repr(word), "allow_unicode_keys": False, "prefix": repr(pfx), "history": order},
+                                          "site": "%s history (%s): %s" % (cname, order, name), "observed": repr(got), "expected": repr(exp),
+                                          "oracle": "prefix + key on every call, whatever was called before", "size": 3 + len(wb),
+                                          "history_case": repr((cname, pfx, word, order))})
+                            break
+    return found, n
+
+
 def search(ctx):
     """Implementation (helper and the three classes) vs the extracted specification key_spec."""
     from pymemcache.client.base import Client, PooledClient
@@ -307,7 +351,9 @@ def search(ctx):
     found += f2
     f3, n_ign = ignore_exc_probe(cs, spec)
     found += f3
-    ctx.search_summary = {"helper_vs_spec": len(cs), "class_sites_vs_spec": n_cls, "commands_vs_spec": n_cmd, "read_commands_with_ignore_exc": n_ign}
+    f4, n_hist = history_probe()
+    found += f4
+    ctx.search_summary = {"helper_vs_spec": len(cs), "class_sites_vs_spec": n_cls, "commands_vs_spec": n_cmd, "read_commands_with_ignore_exc": n_ign, "stats_then_key_histories": n_hist}
     found.sort(key=lambda v: v["size"])
     out, seen = [], set()
     for v in found:                 # the smallest violation of each kind: unlisted ones and each listed finding
@@ -323,6 +369,11 @@ def replay(ctx, obj):
     if not v:
         return None
     i = v["input"]
+    if v.get("history_case"):
+        f, _ = history_probe()
+        hit = [x for x in f if x["history_case"] == v["history_case"]]
+        print(hit[0]["site"] + " -> " + hit[0]["observed"] if hit else "every call applies prefix + key afresh")
+        return bool(hit)
     k, p = eval(i["key"]), eval(i["prefix"])
     if i.get("command"):
         spec = ctx.oracle.call_many([(2, (k, i["allow_unicode_keys"], p))])
